@@ -66,6 +66,7 @@ func run(c *vkit.Collector, rng *vkit.Rng, budget int) {
 	loops(c, rng, budget)
 	polygons(c, rng, budget)
 	latticeSweep(c, rng, budget)
+	tiePolygons(c, rng, budget)
 	c.Extra["violations_by_kind"] = perKind
 }
 
@@ -649,6 +650,78 @@ func trailingZeros(x uint32) int {
 		n++
 	}
 	return n
+}
+
+// ---- ties in the snap-level histogram, repeated encodes ----
+
+// tiePolygons: polygons in which two or three levels are tied for the largest number of cell-centre
+// vertices. Polygon.encode must pick the lowest of the tied levels, and the same polygon must
+// encode to the same bytes every time (each polygon is encoded 64*budget times; a map-ordered
+// choice shows up only once in a few encodes).
+func tiePolygons(c *vkit.Collector, rng *vkit.Rng, budget int) {
+	reps := 64 * budget
+	levelSets := [][]int{{10, 20}, {20, 10}, {0, 30}, {1, 2}, {29, 30}, {5, 17}, {8, 16, 24}, {24, 8, 16}, {3, 4, 5}, {12, 30, 0}}
+	k := 0
+	for face := 0; face < 6; face++ {
+		for _, lv := range levelSets {
+			per := 2 + rng.Intn(3)
+			var vs []s2.Point
+			for _, l := range lv {
+				for i := 0; i < per; i++ {
+					vs = append(vs, cg.CellAt(rng, face, l, 0).Point())
+				}
+			}
+			if rng.Bool() { // a few unsnapped vertices do not change the tie
+				vs = append(vs, cg.UnitPoint(rng))
+			}
+			// interleave the levels so that neither comes first in vertex order
+			for i := len(vs) - 1; i > 0; i-- {
+				j := rng.Intn(i + 1)
+				vs[i], vs[j] = vs[j], vs[i]
+			}
+			p := s2.VerifC09PolygonRaw([]*s2.Loop{cg.RawLoop(rng, vs)}, false, cg.ValidRect(rng))
+			class := fmt.Sprintf("polygon:tie-%d-levels", len(lv))
+			c.Class(class)
+			first, err := cg.Enc(func(w *bytes.Buffer) error { return p.Encode(w) })
+			c.Eval(class+":"+fmt.Sprintf("%x", first[:min(len(first), 80)]), true)
+			if err != nil || len(first) < 2 {
+				violate(c, "Polygon.encode", fmt.Sprintf("encode error %v", err), map[string]interface{}{"class": class})
+				continue
+			}
+			lowest := lv[0]
+			for _, l := range lv {
+				if l < lowest {
+					lowest = l
+				}
+			}
+			rep := map[string]interface{}{"type": "Polygon", "class": class, "levels": lv, "vertices": hexPts(vs), "encoding1": fmt.Sprintf("%x", first)}
+			for r := 1; r < reps; r++ {
+				b, _ := cg.Enc(func(w *bytes.Buffer) error { return p.Encode(w) })
+				c.Eval("tie-repeat", false)
+				if !bytes.Equal(b, first) {
+					rep["encoding2"] = fmt.Sprintf("%x", b)
+					rep["repeat"] = r
+					violate(c, "Polygon.encode.notDeterministic", fmt.Sprintf("the same polygon encodes to different bytes (snap level byte %d vs %d, %d vs %d bytes)", first[1], b[1], len(first), len(b)), rep)
+					break
+				}
+			}
+			if first[0] != 4 {
+				violate(c, "Polygon.encode.tie", "a polygon of cell centres is not encoded in the compressed format", rep)
+			} else if int(first[1]) != lowest {
+				violate(c, "Polygon.encode.tie", fmt.Sprintf("snap level %d chosen, the lowest tied level is %d", first[1], lowest), rep)
+			}
+			q := new(s2.Polygon)
+			if derr := q.Decode(bytes.NewReader(first)); derr != nil {
+				violate(c, "Polygon.roundtrip", "tie polygon does not decode: "+derr.Error(), rep)
+			} else if lq, _, _, _ := s2.VerifC09PolygonFields(q); len(lq) != 1 || !ptsEq(lq[0].Vertices(), vs) {
+				violate(c, "Polygon.roundtrip", "tie polygon: vertices differ", rep)
+			}
+			if k%5 == 0 {
+				c.Check("encode_polygon "+class, vkit.App("opt_eqb bytes_eqb", vkit.App("encode_polygon", cg.InZ(cg.PolygonT(p))), vkit.App("Some", cg.InZ(cg.BytesT(first)))))
+			}
+			k++
+		}
+	}
 }
 
 // ---- values the encoder accepts but the decoder refuses ----
